@@ -815,27 +815,58 @@ theorem evaluate_massConservation (Tmax x y : Rat) (k : String) (d : List (Strin
   simp only [evaluate, Builtin.eqType, equationAt, hu]
   rfl
 
+/-- Navier–Stokes for EVERY layout: `rho` and `nu` are those `extract_params(u_key)` exposes -/
 theorem evaluate_navierStokes (Tmax nu rho x y : Rat) (uk pk : String) (d : List (String × List F))
     (u : List F) (pn : F) (p : EqParams) (hu : netOf d uk = .ok u) (hp : scalarNet d pk = .ok pn)
-    (hrho : getScalar p "rho" = .ok rho) (hnu : getScalar p "nu" = .ok nu) :
+    (hrho : getScalar (extractParams p uk) "rho" = .ok rho)
+    (hnu : getScalar (extractParams p uk) "nu" = .ok nu) :
     evaluate ops ext evAt Tmax (.navierStokes uk pk) none (.statio [x, y]) (.dict d) p =
       .ok ((navierStokes ops nu rho (fun i => nth ops u i) pn).map (evAt [0, x, y])) := by
   simp only [evaluate, Builtin.eqType, evalHetero, equationAt, hu, hp, hrho, hnu]
   rfl
 
-/-- Navier–Stokes reads `rho` at the TOP level of `params_dict.eq_params`: a purely per-network layout
-    (no top-level `rho`) is rejected with a `KeyError` -/
-theorem evaluate_navierStokes_needs_top_level_rho (Tmax x y : Rat) (uk pk : String)
-    (d : List (String × List F)) (u : List F) (pn : F) (p : EqParams) (hu : netOf d uk = .ok u)
-    (hp : scalarNet d pk = .ok pn) (hrho : p.lookup "rho" = none) :
+/-- **both layouts give the documented residual** `(u·∇)u + ρ⁻¹∇p − ν Δu`, with `ρ`, `ν` the values of the
+    VELOCITY network's parameter set.  Per-network layout: `eq_params[u_key]` is a sub-dictionary holding
+    `rho` and `nu`; whatever else `eq_params` contains (the sub-dictionary of `p_key`, top-level entries:
+    `p` is arbitrary otherwise) is not read. -/
+theorem evaluate_navierStokes_per_network (Tmax nu rho x y : Rat) (h : EvalHom ops (evAt [0, x, y]))
+    (uk pk : String) (d : List (String × List F)) (u : List F) (pn : F) (p : EqParams)
+    (du : List (String × List Rat)) (hu : netOf d uk = .ok u) (hp : scalarNet d pk = .ok pn)
+    (hl : p.lookup uk = some (.sub du)) (hrho : du.lookup "rho" = some [rho])
+    (hnu : du.lookup "nu" = some [nu]) :
     evaluate ops ext evAt Tmax (.navierStokes uk pk) none (.statio [x, y]) (.dict d) p =
-      .error "KeyError: rho" := by
-  have : getScalar p "rho" = .error "KeyError: rho" := by
-    unfold getScalar getVec
-    rw [hrho]
-    rfl
-  simp only [evaluate, Builtin.eqType, evalHetero, equationAt, hu, hp, this]
-  rfl
+      .ok [evAt [0, x, y] (nsDoc ops nu rho (fun i => nth ops u i) pn 0),
+           evAt [0, x, y] (nsDoc ops nu rho (fun i => nth ops u i) pn 1)] := by
+  rw [evaluate_navierStokes ops ext evAt Tmax nu rho x y uk pk d u pn p hu hp
+    (getScalar_of_getVec _ _ _ (getVec_extract_nested p uk "rho" du [rho] hl hrho))
+    (getScalar_of_getVec _ _ _ (getVec_extract_nested p uk "nu" du [nu] hl hnu))]
+  have h0 := navierStokes_eq_doc h nu rho (fun i => nth ops u i) pn 0 (by omega)
+  have h1 := navierStokes_eq_doc h nu rho (fun i => nth ops u i) pn 1 (by omega)
+  have e : navierStokes ops nu rho (fun i => nth ops u i) pn =
+      [nth ops (navierStokes ops nu rho (fun i => nth ops u i) pn) 0,
+       nth ops (navierStokes ops nu rho (fun i => nth ops u i) pn) 1] := rfl
+  rw [e]
+  simp only [List.map]
+  rw [h0, h1]
+
+/-- flat layout (no entry named `u_key`: the `KeyError` branch of `extract_params`): `rho`, `nu` at top level -/
+theorem evaluate_navierStokes_flat (Tmax nu rho x y : Rat) (h : EvalHom ops (evAt [0, x, y]))
+    (uk pk : String) (d : List (String × List F)) (u : List F) (pn : F) (p : EqParams)
+    (hu : netOf d uk = .ok u) (hp : scalarNet d pk = .ok pn)
+    (hl : p.lookup uk = none) (hrho : getScalar p "rho" = .ok rho) (hnu : getScalar p "nu" = .ok nu) :
+    evaluate ops ext evAt Tmax (.navierStokes uk pk) none (.statio [x, y]) (.dict d) p =
+      .ok [evAt [0, x, y] (nsDoc ops nu rho (fun i => nth ops u i) pn 0),
+           evAt [0, x, y] (nsDoc ops nu rho (fun i => nth ops u i) pn 1)] := by
+  rw [evaluate_navierStokes ops ext evAt Tmax nu rho x y uk pk d u pn p hu hp
+    (by rw [extractParams_flat p uk hl]; exact hrho) (by rw [extractParams_flat p uk hl]; exact hnu)]
+  have h0 := navierStokes_eq_doc h nu rho (fun i => nth ops u i) pn 0 (by omega)
+  have h1 := navierStokes_eq_doc h nu rho (fun i => nth ops u i) pn 1 (by omega)
+  have e : navierStokes ops nu rho (fun i => nth ops u i) pn =
+      [nth ops (navierStokes ops nu rho (fun i => nth ops u i) pn) 0,
+       nth ops (navierStokes ops nu rho (fun i => nth ops u i) pn) 1] := rfl
+  rw [e]
+  simp only [List.map]
+  rw [h0, h1]
 
 /-- dispatch: the arguments must be those of the equation type's `evaluate` signature -/
 theorem evaluate_dispatch (Tmax : Rat) (b : Builtin) (het : Hetero) (args : EvalArgs) (nets : Nets F)
